@@ -2,7 +2,7 @@
 from sa.core import rule, prop_info
 from sa.lib import *  # noqa: F401,F403
 from sa.lib import attr_stores, func_calls, enclosing_tries, raised_names, handler_reraises
-from sa.model import AnchorMissing, UNKNOWN, kwarg, const_str
+from sa.model import Model, AnchorMissing, UNKNOWN, kwarg, const_str
 from sa.typestate import isinstance_facts
 from sa import roles
 
@@ -128,6 +128,41 @@ def _type_name_and_keys(m, ci):
                         if isinstance(x, ast.Subscript) and isinstance(x.ctx, ast.Store) and isinstance(x.slice, ast.Constant):
                             extra.add(x.slice.value)
                     return tv.value, (keys - {'type'}) | extra, False, ed
+    # the description is put together by a function of the module: `return _nested_datainfo('array', limits, members=self.members)`
+    # where the helper builds `{'type': <its parameter>}`; the keys are the constant keys of the dict displays of the method itself
+    # and the keywords that land in the helper's ** parameter (it adds them under their names)
+    for n in body_walk(ed.node):
+        if not (isinstance(n, ast.Call) and isinstance(n.func, ast.Name)):
+            continue
+        g = m.functions.get(f'{ed.module.name}.{n.func.id}')
+        if g is None or g.cls is not None or g.node.args.kwarg is None:
+            continue
+        pos = [x.arg for x in g.node.args.args]
+        tparam = None
+        for d in ast.walk(g.node):
+            if isinstance(d, ast.Dict):
+                for k, v in zip(d.keys, d.values):
+                    if isinstance(k, ast.Constant) and k.value == 'type' and isinstance(v, ast.Name) and v.id in pos:
+                        tparam = v.id
+        if tparam is None:
+            continue
+        binding = dict(zip(pos, n.args)) if not any(isinstance(a, ast.Starred) for a in n.args) else None
+        if binding is not None:
+            binding.update({k.arg: k.value for k in n.keywords if k.arg in pos})
+        if not binding or not isinstance(binding.get(tparam), ast.Constant):
+            continue
+        kwname = g.node.args.kwarg.arg
+        uses_items = any(isinstance(x, ast.Call) and call_attr(x) == 'items' and isinstance(x.func.value, ast.Name) and x.func.value.id == kwname
+                         for x in ast.walk(g.node))
+        if not uses_items:
+            continue
+        keys = {k.arg for k in n.keywords if k.arg and k.arg not in pos}
+        spread_info = False
+        for d in body_walk(ed.node):
+            if isinstance(d, ast.Dict):
+                keys |= {k.value for k in d.keys if isinstance(k, ast.Constant)}
+                spread_info |= any(k is None and isinstance(v, ast.Call) and call_attr(v) == 'exportProperties' for k, v in zip(d.keys, d.values))
+        return binding[tparam].value, keys - {'type'}, spread_info, ed
     return None
 
 
